@@ -66,7 +66,7 @@ ALLOC_NOPANIC_RE = re.compile(r"\bvec::from_elem\b|Vec(::<.*>)?::(into_boxed_sli
 
 PURE = [
     r"<impl f64>::\w+$",  # inherent f64 methods (clamp excluded above)
-    r"<impl (usize|u\d+|i\d+|isize)>::(saturating_\w+|wrapping_\w+|checked_\w+|overflowing_\w+|min|max|abs_diff|is_power_of_two|count_\w+|leading_\w+|trailing_\w+|swap_bytes|to_[bl]e|from_[bl]e|signum|is_positive|is_negative|unsigned_abs)$",
+    r"<impl (usize|u\d+|i\d+|isize)>::((?!\w*(div|rem))(saturating_\w+|wrapping_\w+|overflowing_\w+)|checked_\w+|min|max|abs_diff|is_power_of_two|count_\w+|leading_\w+|trailing_\w+|swap_bytes|to_[bl]e|from_[bl]e|signum|is_positive|is_negative|unsigned_abs)$",
     r"<impl bool>::\w+$",
     r"<(&)?f64 as (std|core)::ops::\w+(<.*>)?>::\w+$",
     r"(std|core)::cmp::(PartialOrd|PartialEq|Ord|Eq)(<.*>)?::(lt|le|gt|ge|eq|ne|partial_cmp|cmp|max|min)$",
@@ -188,6 +188,9 @@ def classify(callee, crate="ta", local_traits=()):
         return ("forbidden", name)
     if UNBOUNDED_RE.search(both):
         return ("unknown", "unbounded iterator source " + name)
+    raw = callee.get("path_args") or ""
+    if re.search(r"Iterator(>)?::(sum|product)::<(usize|u\d+|i\d+|isize)>$", raw) or re.search(r"(Sum|Product)<.*>.*for (usize|u\d+|i\d+|isize)>::(sum|product)", raw):
+        return ("may_panic", "int-sum")   # integer sums overflow under overflow checks
     if CMP_IMPL_RE.search(name):
         return ("pure", name)   # comparisons of owned plain data (derived PartialEq reaches Box<[f64]>::eq): no panic, no allocation
     for rx, fam in MAY_PANIC_RE:
